@@ -3,6 +3,7 @@ import GA.Drv.LayoutE
 import GA.Drv.OwnE
 import GA.Drv.SeqE
 import GA.Drv.MemE
+import GA.Drv.HistE
 open GA.Drv
 
 def answerLine (line : String) : String :=
@@ -17,6 +18,7 @@ def answerLine (line : String) : String :=
       | "views" => MemE.views kv
       | "chunks" => MemE.chunks kv
       | "regroup" => MemE.regroup kv
+      | "hist" => HistE.answer kv
       | _ => "bad-engine"
     s!"{seq} {body}"
   | _ => "bad-line"
